@@ -95,6 +95,34 @@ sys.exit(1)
                     fail("serialized bound equals computed bound", f"{name}: computed {got}, opaque {o.bound}, serial {s.bound}")
         if len(samples) < 5 and not cop and "Sum" in name:
             samples.append({"type": name, "bound": str(got)})
+    # definitions loaded from the bundled JSON files, reached through Opaque.resolve / TypeDef.instantiate (plain ExtType,
+    # not the std subclasses), evaluated repeatedly: the bound is a function of the type, not of the evaluation history
+    from hugr.ext import ExtensionRegistry, FromParamsBound as _FPB
+    from hugr.std.collections.array import EXTENSION as ARR_EXT
+    from hugr.std.collections.list import EXTENSION as LIST_EXT
+    reg = ExtensionRegistry()
+    reg.add_extension(ARR_EXT)
+    reg.add_extension(LIST_EXT)
+    for e_ in (ARR_EXT, LIST_EXT):
+        for td in e_.types.values():
+            evaluations += 1
+            if isinstance(td.bound, _FPB) and not isinstance(td.bound.indices, list):
+                fail("loaded type definition: the index list of a from-parameters bound is a list", f"{e_.name}.{td.name}.bound.indices is a {type(td.bound.indices).__name__}")
+    for el_name, el, el_cop in atoms[:8]:
+        cases = [
+            (f"resolved array<2,{el_name}>", lambda el=el: T.Opaque("array", el.type_bound(), [T.BoundedNatArg(2), T.TypeTypeArg(el)], "collections.array").resolve(reg)),
+            (f"resolved List<{el_name}>", lambda el=el: T.Opaque("List", el.type_bound(), [T.TypeTypeArg(el)], "collections.list").resolve(reg)),
+            (f"instantiated List<{el_name}>", lambda el=el: LIST_EXT.get_type("List").instantiate([T.TypeTypeArg(el)])),
+        ]
+        for nm, mk in cases:
+            for rep in range(3):
+                evaluations += 1
+                t = mk()
+                got = [t.type_bound(), t.type_bound(), t._to_serial().bound]
+                if any((g == C) != el_cop for g in got):
+                    if len(violations) < 6:
+                        fail("type_bound of a definition-backed type over a loaded definition (repeated evaluation)", f"{nm}, evaluation round {rep}: {got}, element copyable={el_cop}")
+                    break
     # containers that require copyable elements reject linear ones
     for name, t, cop in atoms + lvl1[:200]:
         evaluations += 1
